@@ -745,6 +745,7 @@ class Module(HasAccessibles):
                     m.pollInfo.last_main = 0
                     m.pollInfo.last_slow = 0
                 trg.set()
+                return True  # keep the callback: needed after every reconnect
             self.registerReconnectCallback('trigger_polls', trigger_all)
 
         # collect all read functions
